@@ -219,16 +219,16 @@ DOMNode* DOMTreeWalkerImpl::previousNode () {
     }
     else {
 
-        // get the lastChild of result.
+        // the previous node in document order is the deepest last
+        // descendant of the previous sibling which passes the filters,
+        // or the sibling itself if it has no such descendant.
         DOMNode* lastChild  = getLastChild(node);
+        while (lastChild != 0) {
+            node = lastChild;
+            lastChild = getLastChild(node);
+        }
 
-        // if there is a lastChild which passes filters return it.
-        if (lastChild != 0) {
-            fCurrentNode = lastChild;
-        }
-        else {
-            fCurrentNode = node;
-        }
+        fCurrentNode = node;
         return fCurrentNode;
     }
 }
